@@ -681,8 +681,21 @@ def part_skip(ctx, bins, models):
 # ==================================================================================================
 # (2) Bounds.tla
 # ==================================================================================================
-def render_bound(fam, n):
+def render_bound(fam, n, raw=None):
     """-> (source bytes, args) ; glue only: what a family name means as C text."""
+    if fam == "utf8":
+        # raw: the byte sequence chosen by Bounds.tla (U8Seqs); n = (kind * 5 + prefix) * 4 + context
+        ctxt, pfx, k = n % 4, [b"", b"L", b"u8", b"u", b"U"][(n // 4) % 5], n // 20
+        other = [b"u", b"u8", b"L", b"U", b""][(n // 4) % 5]           # a different prefix for the adjacent literal
+        body = bytes(raw)
+        lit = pfx + (b"'" + body + b"'" if k == 0 else b'"' + body + b'"')
+        if ctxt == 0:
+            return (b"int c = " if k == 0 else b"const void *s = ") + lit + b";\n", []
+        if ctxt == 1:
+            return b"int f(void) { return " + (lit if k == 0 else b"sizeof " + lit + b" + (" + lit + b")[0]") + b" != 0; }\n", []
+        if ctxt == 2:
+            return (b"static_assert(sizeof(" + lit + b") > 0, \"m\");\n" if k == 0 else b"static_assert(0, " + lit + b");\n"), []
+        return b"const void *s = " + lit + b" " + other + b'"b" ' + lit + b";\n", []
     A = lambda k: "a" * k
     if fam == "ident":
         return "int %s;\n" % A(n), []
@@ -849,7 +862,7 @@ def part_bounds(ctx, bins, models):
         raise vlib.MachineryError("Bounds.tla NGuard differs from the harness' guard probe list")
 
     def one(c):
-        src, args = render_bound(c["fam"], c["n"])
+        src, args = render_bound(c["fam"], c["n"], c.get("bytes"))
         data = src if isinstance(src, bytes) else src.encode()
         # instrumented frames are ~3x larger: beyond depth 1000 the plain build is the target (stack exhaustion of the
         # sanitized build is an artefact of the instrumentation, not of the compiler)
@@ -861,6 +874,11 @@ def part_bounds(ctx, bins, models):
             if c["class"] == 0 or c["fam"].startswith("desc_") or c["fam"] == "margs":
                 audit = audit_class(data, c["class"] == 0)
         obs, sig, err = observe(exe, data, args)
+        if c["fam"] == "utf8" and obs in (0, 1):
+            # the decoder's verdict must not depend on the build: assertions are compiled into both, ASan's allocator is not
+            o2, s2, e2 = observe(bins.plain, data, args)
+            if o2 != obs:
+                obs, sig, err = (o2, s2, e2) if o2 not in (0, 1) else ("crash", "bounds:utf8:plain-differs:%s-vs-%s" % (obs, o2), e2)
         if c["fam"] == "arity" and obs in (0, 1):
             o2, s2, e2 = observe(bins.plain, data, args)     # stale heap contents differ between the two allocators
             if o2 not in (0, 1) or o2 != obs:
@@ -873,9 +891,11 @@ def part_bounds(ctx, bins, models):
         if audit is not None:
             raise vlib.MachineryError("SPEC-AUDIT Bounds.tla: %s(%d) class %d: %s" % (c["fam"], c["n"], c["class"], audit))
         n += 1
-        ctx.count("bounds/%s/%d" % (c["fam"], c["n"]), nontrivial=True)
+        ctx.count("bounds/%s/%d/%s" % (c["fam"], c["n"], bytes(c.get("bytes", [])).hex()), nontrivial=True)
         case = {"part": "bounds", "family": c["fam"], "n": c["n"], "class": c["class"], "held": c["held"], "args": args, "build": "plain" if deep else "asan+ubsan",
                 "source": data[:300].decode("latin-1") + ("..." if len(data) > 300 else "")}
+        if "bytes" in c:
+            case["bytes"] = c["bytes"]
         if obs in ("crash", "hang"):
             ctx.violation(sig, "sanitizer report / abnormal end / timeout on a boundary input of Bounds.tla",
                           dict(case, stderr=err[-1500:]))
@@ -918,9 +938,26 @@ SEEDS = [
     ("fixed-3a3e772-builtin-as-statement", b"int main(void) { __builtin_expect; }\n", []),
     ("fixed-f3e22e6-attr-eof", b"[[foo(", []),
     ("fixed-f3e22e6-gnuattr-eof", b"__attribute__((foo(", []),
-    ("nullptr-in-function", b"int f(void) { nullptr; return 0; }\n", []),
-    ("cast-to-incomplete-enum", b"void f(void) { (enum e)1.5; }\n", []),
-    ("cast-to-incomplete-enum-const", b"int x = (enum e)1;\n", []),
+    ("fixed-3b44cfa-nullptr-in-function", b"int f(void) { nullptr; return 0; }\n", []),
+    ("fixed-3b44cfa-nullptr-condition", b"int f(void) { return nullptr ? 1 : 0; }\n", []),
+    ("fixed-7de8952-cast-to-incomplete-enum", b"void f(void) { (enum e)1.5; }\n", []),
+    ("fixed-7de8952-cast-to-incomplete-enum-const", b"int x = (enum e)1;\n", []),
+    ("fixed-7de8952-object-of-incomplete-enum", b"enum e v;\n", []),
+    ("fixed-7de8952-parameter-of-incomplete-enum", b"void g(enum e x) {}\n", []),
+    ("fixed-7de8952-enum-without-tag-cast", b"int main() { (enum)1 < 0; }\n", []),
+    ("fixed-7de8952-enum-without-tag-parameter", b"int main(enum) { (char)0 < (unsigned)256; }\n", []),
+    ("fixed-7de8952-enum-forward-then-defined", b"enum e; enum e { A }; enum e v = A;\n", []),
+    ("fixed-46ba986-named-void-parameter", b"void f(void voiddefault) {\n", []),
+    ("fixed-46ba986-void-then-ellipsis", b"void g1(void, ...); void f() { g1(0); }\n", []),
+    ("fixed-ba7af91-incomplete-struct-parameter", b"struct s; void f(struct s x) {}\n", []),
+    ("fixed-ba7af91-fixed-enum-forward-parameter", b"enum E : long; void g(enum E x) {}\n", []),
+    ("fixed-3fd6171-definition-without-function-declarator", b"int f(); typeof(f) f {\n", []),
+    ("fixed-550242f-va-list-initializer-aarch64", b"__builtin_va_list a, b = __builtin_va_copy(a, b);\n", ["-t", "aarch64"]),
+    ("fixed-550242f-va-list-initializer-scalar", b"__builtin_va_list b = 1;\n", []),
+    ("fixed-550242f-va-list-initializer-braces", b"void f(void) { __builtin_va_list b = {0}; }\n", ["-t", "aarch64"]),
+    ("fixed-315a5b4-deref-string-file-scope", b"char s = *\"abc\";\n", []),
+    ("fixed-315a5b4-deref-string-block-scope", b"void f(void) { char s = *\"abc\"; }\n", []),
+    ("fixed-315a5b4-deref-string-value", b"int f(void) { return *\"abc\" + *L\"x\"; }\n", []),
     ("zero-length-local-array", b"void f(void) { int a[0]; }\n", []),
     ("zero-size-struct-assign", b"struct S { int a[0]; }; void f(void) { struct S x, y; x = y; }\n", []),
     ("union-two-designators", b"union U { int a; char b; } u = {.a = 1, .b = 2};\n", []),
@@ -1026,7 +1063,7 @@ def part_volume(ctx, bins):
     inputs = []          # (bytes, target, mode, descr, origin)
     for name, src, args in SEEDS:
         if not name.startswith("deep-"):     # beyond depth 10^3 the plain build is the target (see Bounds)
-            inputs.append((src, "x86_64-sysv", "E" if "-E" in args else "c", {"seed": name}, "seed"))
+            inputs.append((src, args[args.index("-t") + 1] if "-t" in args else "x86_64-sysv", "E" if "-E" in args else "c", {"seed": name}, "seed"))
     for p, targ, mode in files:
         inputs.append((open(p, "rb").read(), targ, mode, {"file": os.path.basename(p)}, "corpus"))
     for src, targ, mode, d in mutate.generate(ctx, 1500 if q else 45000, 2):
@@ -1174,7 +1211,7 @@ def replay(ctx, path):
         print(" -> %s" % (got_key or "conforms"))
         return 1 if got_key and (got_key == key or key.startswith("proc:") and got_key.startswith("proc:")) else 0
     if part == "bounds":
-        src, args = render_bound(case["family"], case["n"])
+        src, args = render_bound(case["family"], case["n"], case.get("bytes"))
         data, want = (src if isinstance(src, bytes) else src.encode()), {0: "status 0", 1: "status 1", 2: "status 0 or 1"}[case["class"]]
         exe = bins.plain if case["build"] == "plain" else bins.san
     elif part == "skip":
